@@ -631,7 +631,18 @@ pub fn run_builder<S: Sut>(
 
     for (step, req) in hist.reqs.iter().enumerate() {
         stats.requests += 1;
-        let before = observe(&sut, model.variants.len(), model.names.len(), &pool);
+        let before = match catch_unwind(AssertUnwindSafe(|| observe(&sut, model.variants.len(), model.names.len(), &pool))) {
+            Ok(o) => o,
+            Err(p) => {
+                out.push(Violation::new(
+                    "C12",
+                    "observation-panicked",
+                    format!("{} before step {}: looking up data the model knows panicked: {}", which, step, panic_text(p)),
+                    hist,
+                ));
+                return (sut, model, flags);
+            }
+        };
         // model
         let expected = match req {
             Req::Add { name, .. } => {
@@ -700,7 +711,18 @@ pub fn run_builder<S: Sut>(
         }
         // state comparison
         stats.model_comparisons += 1;
-        let after = observe(&sut, model.variants.len(), model.names.len(), &pool);
+        let after = match catch_unwind(AssertUnwindSafe(|| observe(&sut, model.variants.len(), model.names.len(), &pool))) {
+            Ok(o) => o,
+            Err(p) => {
+                out.push(Violation::new(
+                    "C12",
+                    "observation-panicked",
+                    format!("{} after step {} {:?}: looking up data the model knows panicked: {}", which, step, req, panic_text(p)),
+                    hist,
+                ));
+                return (sut, model, flags);
+            }
+        };
         stats.name_lookups += (pool.len() * (1 + model.variants.len())) as u64;
         if matches!(expected, Outcome::Rejected) && after != before {
             out.push(Violation::new(
